@@ -182,8 +182,20 @@ def harness_factory(lname, k, nargs, twins=False, form="lambda"):
                 Root = declare(Base, lname, oexpr)
             else:
                 Root = declare(N, lname, oexpr)
+        if form == "static_for":
+            # the oldest spelling of an extended listener: a method named _<attribute>_changed_for_<link> on the class
+            def _static(self, obj, name, old, new):
+                legacy.append((name, new))
+            _static.__name__ = "_value_changed_for_" + steps[0]
+            Root = type("DeclaredFor", (N,), {_static.__name__: _static})
         start_none = ex.flag("child_starts_none")
-        if form in ("decorated", "overridden") and ex.flag("constructor_arguments"):
+        if form == "static_for" and ex.flag("constructor_arguments"):
+            if not start_none:
+                ctor["child"] = fresh()
+            ctor["children"] = [fresh(), fresh()]
+            root = Root(name="root", **ctor)
+            root.mapping = {"a": fresh()}
+        elif form in ("decorated", "overridden") and ex.flag("constructor_arguments"):
             if not start_none:
                 ctor["child"] = fresh()
             ctor["children"] = [fresh(), fresh()]
@@ -212,6 +224,8 @@ def harness_factory(lname, k, nargs, twins=False, form="lambda"):
             oh = lambda e: modern.append(type(e).__name__) if type(e).__name__ in ("ListChangeEvent", "DictChangeEvent", "SetChangeEvent") else None
         if form == "lambda":
             root.on_trait_change(lh, lname)
+            root.observe(oh, oexpr)
+        elif form == "static_for":
             root.observe(oh, oexpr)
         elif form == "methods":
             lh = r1.on_legacy
@@ -301,6 +315,10 @@ def harness_factory(lname, k, nargs, twins=False, form="lambda"):
                 ex.check(len(modern) == want, "observe handler called iff the node is reachable (reference behaviour)")
                 ex.check(len(legacy) == want, "the legacy handler is called for a change of the final attribute iff the changed object is "
                                               "currently reachable along the name, exactly as the observe handler")
+        if form == "static_for":
+            ex.note("errors", [repr(e)[:300] for e in errors])
+            ex.check(errors == [], "no listener raised")
+            return {"trace": trace}
         # removal stops all calls
         root.on_trait_change(lh, lname, remove=True)
         reach = G.reachable(root, steps)
@@ -351,6 +369,11 @@ def obligations(tier, build):
                                       "final element": "attributes selected by metadata (true / false / undefined)" if lname.endswith("+mtag")
                                       else "a container in terminal position, changed in place"},
                               leverage="choice feasibility only", max_paths=100000, path_wall_s=60))
+    for lname in ("child:value", "children:value"):
+        obs.append(Obligation("forms/static_for/%s/k=%d" % (lname, K), harness_factory(lname, K, 4, form="static_for"), env=G.env, stubs=STUBS,
+                              bounds={"extended name": "method _value_changed_for_" + NAMES[lname][1][0], "observe expression": NAMES[lname][0],
+                                      "history length": K, "constructor arguments": "flag"},
+                              leverage="list indices; otherwise choice feasibility only", max_paths=100000, path_wall_s=60))
     FK = 2          # (the forms multiply the histories by the declaration flags: length 2 in both tiers, all names in thorough)
     for form in ("methods", "decorated", "overridden"):
         for lname in NAMES:
